@@ -27,6 +27,7 @@ func init() {
 	harness.RegisterReplay("aacentrybox", harness.Replayer(checkEntryBox))
 	harness.RegisterReplay("aacentrymulti", harness.Replayer(checkAACEntryMulti))
 	harness.RegisterReplay("adtsstream", harness.Replayer(checkADTSStream))
+	harness.RegisterReplay("adtsreuse", harness.Replayer(checkADTSReuse))
 	// development aid: VERIF_C18_NOAVOID=all or a comma-separated list of switch names
 	if v := os.Getenv("VERIF_C18_NOAVOID"); v == "all" {
 		avoidKnown = map[string]bool{}
@@ -519,6 +520,55 @@ func checkADTSJunk(c junkCase) *harness.Fail {
 	return nil
 }
 
+// reuseCase: one ADTSHeader object: Encode, public fields replaced by those of B, Encode again.
+type reuseCase struct {
+	A adtsCase `json:"a"`
+	B adtsCase `json:"b"`
+}
+
+func libADTS(c adtsCase) (*aac.ADTSHeader, *harness.Fail) {
+	h, _, err := aac.DecodeADTSHeader(bytes.NewReader(refADTS(c)))
+	if err != nil {
+		return nil, harness.Failf("C18|adts|decode-error", "%+v: %v", c, err)
+	}
+	return h, nil
+}
+
+func checkADTSReuse(c reuseCase) *harness.Fail {
+	h, f := libADTS(c.A)
+	if f != nil {
+		return f
+	}
+	nb, f := libADTS(c.B)
+	if f != nil {
+		return f
+	}
+	first := h.Encode()
+	if !bytes.Equal(first, refADTS(c.A)) {
+		return harness.Failf("C18|adts|encode-mismatch", "first encoding %x, reference %x", first, refADTS(c.A))
+	}
+	harness.AssignExported(h, nb)
+	if got, want := h.Encode(), refADTS(c.B); !bytes.Equal(got, want) {
+		return harness.Failf("C18|adtsreuse|header object encoded, fields changed, encoded again: not the encoding of the new values", "after %+v: fields %+v encode to %x, reference %x", c.A, c.B, got, want)
+	}
+	// and the AudioSpecificConfig of the two frequencies / channel configurations likewise
+	ca := ascCase{ObjectType: 2, Freq: tableFreqs[int(c.A.FreqIdx)%len(tableFreqs)], Channels: c.A.Channels}
+	cb := ascCase{ObjectType: 2, Freq: tableFreqs[int(c.B.FreqIdx)%len(tableFreqs)], Channels: c.B.Channels}
+	a, b := ca.config(), cb.config()
+	var w1, w2 bytes.Buffer
+	if err := a.Encode(&w1); err != nil {
+		return harness.Failf("C18|asc|encode-error", "%+v: %v", ca, err)
+	}
+	harness.AssignExported(&a, &b)
+	if err := a.Encode(&w2); err != nil {
+		return harness.Failf("C18|asc|encode-error", "%+v: %v", cb, err)
+	}
+	if !bytes.Equal(w2.Bytes(), refASC(cb)) {
+		return harness.Failf("C18|ascreuse|config object encoded, fields changed, encoded again: not the encoding of the new values", "after %+v: %+v encodes to %x, reference %x", ca, cb, w2.Bytes(), refASC(cb))
+	}
+	return nil
+}
+
 // streamCase: ADTS frames (header + payload of the announced length) behind each other, read with one reader.
 type streamCase struct {
 	Frames []adtsCase `json:"frames"`
@@ -681,6 +731,21 @@ func TestADTSJunk(t *testing.T) {
 		}
 	}
 	harness.Rec.BulkDistinct(ns, ns, "adts-frames-in-sequence-on-one-reader")
+	// one header object encoded, its public fields changed, encoded again: the second encoding is that of the new
+	// values (every ordered pair of the reduced header set)
+	var nr int64
+	for a := range hdrs {
+		for b := range hdrs {
+			idx++
+			if idx%harness.E.NShards != harness.E.Shard {
+				continue
+			}
+			c := reuseCase{A: hdrs[a], B: hdrs[b]}
+			nr++
+			harness.ReportDirect(t, "adtsreuse", c, harness.Guarded(func() *harness.Fail { return checkADTSReuse(c) }))
+		}
+	}
+	harness.Rec.BulkDistinct(nr, nr, "adts-header-object-encoded-changed-encoded-again")
 	harness.Rec.Exhaustive("ADTS frames in sequence: every ordered pair of 5 headers (+ a third) x leading junk {0,1,9}")
 }
 
